@@ -139,6 +139,20 @@ def floo_pkg_names():
     return enums, structs, funcs, params
 
 
+def py_algorithms():
+    """every routing algorithm floogen knows by name (members of RouteAlgo): each is tried, so that an
+    algorithm the generator starts to accept is held against what floo_pkg offers"""
+    import importlib
+    import sys
+    sys.path.insert(0, common.REPO)
+    try:
+        mod = importlib.import_module("floogen.model.routing")
+        vals = [str(a.name) for a in mod.RouteAlgo]
+    finally:
+        sys.path.remove(common.REPO)
+    return [a for a in ("XY", "ID", "SRC") if a in vals] + sorted(a for a in vals if a not in ("XY", "ID", "SRC"))
+
+
 def py_directions():
     import importlib
     import sys
@@ -159,7 +173,7 @@ def branch_descriptions():
     for y in sorted(glob.glob(os.path.join(common.REPO, "floogen", "examples", "*.yml"))):
         out.append(("example:" + os.path.basename(y), ruamel.yaml.YAML(typ="safe").load(open(y))))
     for nw in (False, True):
-        for algo in ("XY", "ID", "SRC"):
+        for algo in py_algorithms():
             sels = ["both"] if not nw else ["both", "narrow", "wide"]
             for roles in (["ms", "m", "s"], ["m", "s", "ms"], ["ms", "ms", "m"]):
                 for sel in sels:
@@ -169,12 +183,12 @@ def branch_descriptions():
                     for i, role in enumerate(roles):
                         nm = f"e{i}"
                         eps.append(families.mk_ep(nm, role, nw, rng, alloc, proto_sel="both" if i == 0 else sel))
-                        if algo == "XY":
+                        if algo not in ("ID", "SRC"):
                             conns.append({"src": nm, "dst": "router", "dst_idx": [i % 2, i // 2], "dst_dir": "Eject"})
                         else:
                             conns.append({"src": nm, "dst": "router"})
                     d["endpoints"], d["connections"] = eps, conns
-                    d["routers"] = [{"name": "router", "array": [2, 2], "degree": 5}] if algo == "XY" else [{"name": "router"}]
+                    d["routers"] = [{"name": "router", "array": [2, 2], "degree": 5}] if algo not in ("ID", "SRC") else [{"name": "router"}]
                     if nw and roles[0] != "ms":
                         continue
                     out.append((f"branch:{'nw' if nw else 'axi'}/{algo}/{''.join(roles)}/{sel}", d))
@@ -202,6 +216,8 @@ def generated_usage():
     for tag, d in branch_descriptions():
         r = generate(d)
         if not r["ok"]:
+            if tag.startswith("branch:") and tag.split("/")[1] not in ("XY", "ID", "SRC"):
+                continue            # an algorithm the generator knows by name but refuses (YX today)
             raise RuntimeError(f"{tag} is not generated: {r['error']}")
         n = netlist.read(r["pkg"], r["top"])
         tp = n["raw_top"]
